@@ -96,7 +96,7 @@ def _callers_bound(m, f, k, w):
     return True
 
 
-def scan_truncations(m, only_repo=True, files=None):
+def scan_truncations(m, only_repo=True, files=None, skip_internal=False):
     """truncations of a size_t-derived value to 32 bits or fewer whose operand is
     not bounded (by the guards that dominate it, type widths included) to the
     narrower type and whose result is used for control, addressing or as a
@@ -108,6 +108,8 @@ def scan_truncations(m, only_repo=True, files=None):
             continue
         if files and not any(x in f.srcfile for x in files):
             continue
+        if skip_internal and f.internal:
+            continue        # inlined view: the body is judged inside every caller, with the caller's bounds
         der = RG = uses = None
         for i in f.insts():
             if i.op != "trunc" or i.d.get("fromty", "") != "i64":
@@ -164,7 +166,7 @@ def scan(m, only_repo=True, files=None):
     return n, bad
 
 
-def rule(rep, rid, m, cname, only_repo=True, files=None):
+def rule(rep, rid, m, cname, only_repo=True, files=None, inlined=False):
     n, bad = scan(m, only_repo, files)
     for f, i, c in bad:
         rep.violation(rid, "%s:mask%#x" % (f.name, c), i.where(),
@@ -172,7 +174,7 @@ def rule(rep, rid, m, cname, only_repo=True, files=None):
                       "the length are cleared, so for lengths of 4 GiB or more only len mod 2^32 bytes are processed" % (f.name, c),
                       config=cname)
     rep.instance(rid, n - len(bad), {"config": cname, "masks_examined": n})
-    nt, badt = scan_truncations(m, only_repo, files)
+    nt, badt = scan_truncations(m, only_repo, files, skip_internal=inlined)
     for f, i, sink, hi in badt:
         rep.violation(rid, "%s:trunc%d" % (f.name, 8 * (i.d.get("sz") or 0) or int(i.ty[1:])), i.where(),
                       "%s narrows a size_t-derived value to %s although nothing bounds it below 2^%s (the guards allow values up to "
